@@ -230,7 +230,7 @@ theorem finish_attr {pl : Plug π β} {head : Nat} {s s' : St β} {c : Nat} {cm 
     exact a.step w sm sm' g (fun r hr => hr) (fun b hb' => hb') (fun b _ => rfl)
       (fun b hb' hnb => absurd hb' hnb) (fun r hr hnr => absurd hr hnr) hclsc hV
       (fun _ cl _ _ he => absurd he hne)
-  | skip bpar new pb helig _ hfn hm hnew _ =>
+  | skip bpar new pb pbs bumps helig _ hfn hm hnew _ =>
     have hs := findNew_spec w.rcPar hfn
     obtain ⟨e, he, _, hk, _, hnewiff⟩ := hs.ext
     have hcur : ∀ i, isCurBuild (rp.addPlain c fr) i = isCurBuild rp i := by
